@@ -65,7 +65,7 @@ Definition del (f : file) (fs : list file) : list file := filter (fun g => negb 
 
 (* ---- configuration ---- *)
 Record opts := mkOpts {
-  total : nat;               (* total_iterations (initial_index = 0) *)
+  total : nat;               (* total_iterations *)
   nsamp : nat -> nat;        (* n_samples(iglobal) *)
   sic : bool;                (* sampling_iteration_controller is not None *)
   outdir : bool;             (* output_directory is not None *)
@@ -82,7 +82,8 @@ Record opts := mkOpts {
                                 (_make_callable(None) = lambda x: None: one parameter, nothing observable) *)
   trans : nat -> bool;       (* transitions(iglobal) is not None *)
   ret_pos : bool;            (* return_final_position *)
-  export : bool              (* export_operator_outputs has one (matching) entry *)
+  export : bool;             (* export_operator_outputs has one (matching) entry *)
+  init_index : nat           (* initial_index *)
 }.
 
 (* what the function finds when it is called *)
@@ -173,14 +174,18 @@ Definition minimise (o : opts) (i : nat) (s : lstate) : lstate :=
   if nsamp o i =? 0 then set_sl 1 false s else set_sl (2 * nsamp o i) true s.
 
 (* if output_directory is not None:
-       _export_operators(...); sl.save(...); write last_finished_iteration;
+       _export_operators(...)
+       if save_strategy == "latest": _remove_last_finished_index()      [marker invalidated while the
+                                                                         files are overwritten in place]
+       sl.save(...)
        _pickle_save_values(iglobal, 'energy_history', ...)
        if plot_energy_history: _plot_energy_history(iglobal, ...)   [second plot only `if index > 0`] *)
 Definition save_block (v : variant) (o : opts) (i : nat) (s : lstate) : lstate :=
   if outdir o then
     let s := if export o then write (FExport (fn o i)) s else s in
+    let s := if save_all o then s else unlink FLast s in
     let s := save_sl v (fn o i) s in
-    let s := write (FEnergyHist (fn o i)) (write FLast s) in
+    let s := write (FEnergyHist (fn o i)) s in
     if plot_e o then
       let s := write (FEnergyPlot (fn o i)) s in
       if 0 <? i then write (FEnergyChangePlot (fn o i)) s else s
@@ -193,6 +198,8 @@ Definition save_block (v : variant) (o : opts) (i : nat) (s : lstate) : lstate :
          mh = {...} if iglobal == 0 else _pickle_load_values(iglobal - 1, 'minisanity_history')
          ...; _pickle_save_values(iglobal, 'minisanity_history', mh)
          if plot_minisanity_history: _plot_minisanity_history(iglobal, mh)
+   if output_directory is not None and _MPI_master(..): _save_last_finished_index(iglobal)
+                                                             [marker last, written to .tmp and os.replace'd]
    _counting_report(count, iglobal, comm)                    [file only if _output_directory is not None] *)
 Definition report_block (v : variant) (o : opts) (e : env) (i : nat) (s : lstate) : outcome lstate :=
   if glob_set v o e then
@@ -202,6 +209,7 @@ Definition report_block (v : variant) (o : opts) (e : env) (i : nat) (s : lstate
     if negb (i =? 0) && negb present then Err ENotFound else
     let s := gwrite o (FMinisanityHist (gfn o e i)) s in
     let s := if plot_m o then gwrite o (FMinisanityPlot (gfn o e i)) s else s in
+    let s := if outdir o then write FLast s else s in
     Ok (gwrite o FCounting s)
   else Ok s.
 
@@ -296,18 +304,18 @@ Definition prepare (v : variant) (o : opts) (e : env) : outcome (lstate * nat * 
              then Ok (set_depth (saved_depth e) (set_sl 1 false s0), S l, true, false)
              else Err ENotFound
       else if negb (fix_iglobal v) && negb (sanity o) then Err EUnbound
-      else Ok (write FRandomState s0, 0, false, false)
+      else Ok (write FRandomState s0, init_index o, false, false)
     | None =>
       if negb (fix_iglobal v) && negb (sanity o) then Err EUnbound
-      else Ok (write FRandomState s0, 0, false, false)
+      else Ok (write FRandomState s0, init_index o, false, false)
     end
-  else Ok (s0, 0, false, false).
+  else Ok (s0, init_index o, false, false).
 
 Definition run (v : variant) (o : opts) (e : env) : outcome result :=
   (* if output_directory is None and resume: raise ValueError *)
   if negb (outdir o) && resume o then Err EValue else
   (* if initial_index >= total_iterations: raise ValueError *)
-  if total o =? 0 then Err EValue else
+  if total o <=? init_index o then Err EValue else
   (* if _number_of_arguments(inspect_callback) not in [1, 2]: raise ValueError *)
   if negb ((inspect_args o =? 0) || (inspect_args o =? 1) || (inspect_args o =? 2)) then Err EValue else
   (* if sanity_checks: for iglobal in range(...):
@@ -328,7 +336,7 @@ Definition run (v : variant) (o : opts) (e : env) : outcome result :=
 
 (* ---- documented preconditions on a configuration and on what is found on disk ---- *)
 Definition valid (o : opts) (e : env) : Prop :=
-  1 <= total o /\
+  init_index o < total o /\
   (resume o = true -> outdir o = true) /\
   inspect_args o <= 2 /\
   (sic o = false -> forall i, nsamp o i = 0) /\
@@ -341,7 +349,13 @@ Definition valid (o : opts) (e : env) : Prop :=
      has (files0 e) FRandomState = true /\ has (files0 e) (FEnergyHist (fn o l)) = true /\
      has (files0 e) (FMinisanityHist (fn o l)) = true /\
      (has (files0 e) (FMean (fn o l)) = true \/
-      count_samples (files0 e) (fn o l) 0 (length (files0 e)) = 1)).
+      count_samples (files0 e) (fn o l) 0 (length (files0 e)) = 1)) /\
+  (* a positive initial_index with an output directory continues the numbering of an earlier call
+     into the same directory ("May be used if optimize_kl is called multiple times"): the
+     minisanity history of iteration initial_index - 1 is there *)
+  (outdir o = true -> init_index o <> 0 ->
+     (resume o = true -> last0 e = None) ->
+     has (files0 e) (FMinisanityHist (fn o (pred (init_index o)))) = true).
 
 (* ---- observation helpers for the correspondence ---- *)
 Definition action_eqb (a b : action) : bool :=
